@@ -1,0 +1,47 @@
+//! Verification hook: canonical state fingerprint of a `ChunkSerializer` (feature `verif`).
+use super::super::chunk_header::ChunkHeader;
+use super::ChunkSerializer;
+use verif_hooks::push_u32;
+
+pub fn fingerprint_header(header: &ChunkHeader, out: &mut Vec<u8>) {
+    // Exhaustive destructuring: a new field must be added here explicitly.
+    let ChunkHeader {
+        chunk_stream_id,
+        timestamp,
+        timestamp_field,
+        message_length,
+        message_type_id,
+        message_stream_id,
+        can_be_dropped,
+    } = header;
+
+    push_u32(out, *chunk_stream_id);
+    push_u32(out, timestamp.value);
+    push_u32(out, *timestamp_field);
+    push_u32(out, *message_length);
+    out.push(*message_type_id);
+    push_u32(out, *message_stream_id);
+    out.push(*can_be_dropped as u8);
+}
+
+impl ChunkSerializer {
+    pub fn verif_fingerprint(&self, out: &mut Vec<u8>) {
+        let ChunkSerializer {
+            previous_headers,
+            max_chunk_size,
+        } = self;
+
+        push_u32(out, *max_chunk_size);
+        let mut keys: Vec<&u32> = previous_headers.keys().collect();
+        keys.sort();
+        push_u32(out, keys.len() as u32);
+        for key in keys {
+            push_u32(out, *key);
+            fingerprint_header(&previous_headers[key], out);
+        }
+    }
+
+    pub fn verif_max_chunk_size(&self) -> u32 {
+        self.max_chunk_size
+    }
+}
